@@ -171,6 +171,7 @@ PENDING = {}   # id -> reason, for properties whose check is not built yet
 EXTRA_TEXT = {
     "C05": " Also (P10, shared with C07.S8): the pathname setter removes an existing \"/.\" guard on every path before the new path is written.",
     "C07": " Also: clearing editors erase exactly the span of their component; the pathname setter removes an existing \"/.\" guard before the new path is written.",
+    "C08": " Also: an invalid base makes can_parse false (a `return false` behind every parse of the base, reached only when it is not valid); the quantity bounded by limit/3 covers input and base.",
     "C17": " Also (D5): a wrapper that parses the base itself returns a failed result when the base does not parse.",
     "C13": " Also: the compare-exchange that elects the initialiser expects the constant kTablesUninit.",
     "C19": " Also: no refusal of the host setter depends on a condition its twin does not test.",
